@@ -1,5 +1,7 @@
 //! nbverif: pure executor. Reads cases on stdin, writes one observation line per case.
+mod html;
 mod list;
+mod util;
 
 fn main() {
     let args: Vec<String> = std::env::args().collect();
@@ -10,6 +12,7 @@ fn main() {
     // keep panic messages out of stderr noise; harness functions use catch_unwind
     std::panic::set_hook(Box::new(|_| {}));
     match args[1].as_str() {
+        "html" => html::main(),
         "list" => list::main(),
         other => {
             eprintln!("unknown subcommand {other}");
